@@ -55,7 +55,7 @@ Record dispatcher_src := {
 
 (* strategies.adjust_patch_level: the body as pinned (compares n with len(target_path): never wraps; would wrap an entry
    instead of a list; passes None through) or as repaired (notes/C03-fix-2.diff) *)
-Inductive apl_variant := APLPinned | APLFixed.
+Inductive apl_variant := APLPinned | APLFixed | APLOther.   (* APLOther: a body the translator does not know *)
 
 (* generic._merge_strings: strategies that bypass the line-list merge *)
 Inductive string_switch := SwInlineSource | SwLocalThenRemote.
